@@ -30,17 +30,17 @@ type vC03limiter struct {
 	sys, tr, asys, atr, svc, svcPeer, proto, protoPeer, peer, stream, conn *BaseLimit
 }
 
-func (l *vC03limiter) GetSystemLimits() Limit                         { return l.sys }
-func (l *vC03limiter) GetTransientLimits() Limit                      { return l.tr }
-func (l *vC03limiter) GetAllowlistedSystemLimits() Limit              { return l.asys }
-func (l *vC03limiter) GetAllowlistedTransientLimits() Limit           { return l.atr }
-func (l *vC03limiter) GetServiceLimits(svc string) Limit              { return l.svc }
-func (l *vC03limiter) GetServicePeerLimits(svc string) Limit          { return l.svcPeer }
-func (l *vC03limiter) GetProtocolLimits(proto protocol.ID) Limit      { return l.proto }
-func (l *vC03limiter) GetProtocolPeerLimits(proto protocol.ID) Limit  { return l.protoPeer }
-func (l *vC03limiter) GetPeerLimits(p peer.ID) Limit                  { return l.peer }
-func (l *vC03limiter) GetStreamLimits(p peer.ID) Limit                { return l.stream }
-func (l *vC03limiter) GetConnLimits() Limit                           { return l.conn }
+func (l *vC03limiter) GetSystemLimits() Limit                        { return l.sys }
+func (l *vC03limiter) GetTransientLimits() Limit                     { return l.tr }
+func (l *vC03limiter) GetAllowlistedSystemLimits() Limit             { return l.asys }
+func (l *vC03limiter) GetAllowlistedTransientLimits() Limit          { return l.atr }
+func (l *vC03limiter) GetServiceLimits(svc string) Limit             { return l.svc }
+func (l *vC03limiter) GetServicePeerLimits(svc string) Limit         { return l.svcPeer }
+func (l *vC03limiter) GetProtocolLimits(proto protocol.ID) Limit     { return l.proto }
+func (l *vC03limiter) GetProtocolPeerLimits(proto protocol.ID) Limit { return l.protoPeer }
+func (l *vC03limiter) GetPeerLimits(p peer.ID) Limit                 { return l.peer }
+func (l *vC03limiter) GetStreamLimits(p peer.ID) Limit               { return l.stream }
+func (l *vC03limiter) GetConnLimits() Limit                          { return l.conn }
 
 var vC03ipValid bool
 var vC03addN, vC03rmN int
